@@ -1,7 +1,8 @@
 #!/venv/bin/python
 """Copies seeding-agent output /tmp/seed_out/<PID>/<x>/ into /verif/seeded/<PID>-<x>/ (patch.diff, demo.py, meta.json)."""
 import json, os, shutil, sys
-src = '/tmp/seed_out'
+import sys
+src = sys.argv[1] if len(sys.argv) > 1 else '/tmp/seed_out'
 for pid in sorted(os.listdir(src)):
     for x in sorted(os.listdir(os.path.join(src, pid))):
         d = os.path.join(src, pid, x)
